@@ -88,6 +88,62 @@ def c13(out, tier):
     })
 
 
+TD_SRC = ["tendril/src/tendril.rs", "tendril/src/buf32.rs", "tendril/src/fmt.rs", "tendril/src/util.rs"]
+TD_H = {
+    "c11_clone_push_grow": ("clone, then push onto the original (inline 7 bytes growing to owned 11): the clone keeps its bytes", 120, "q"),
+    "c11_clone_push_inline": ("clone, then push (inline stays inline)", 120, "q"),
+    "c11_clone_pop_owned": ("clone of an owned 10-byte tendril, pop_front on the clone (shared, offset): original unchanged", 300, "q"),
+    "c11_clone_pop_9to8": ("clone of a 9-byte tendril popped to 8 bytes (shared -> inline boundary)", 300, "q"),
+    "c11_pops_inline": ("pop_front/pop_back/failed try_pop_front on an inline tendril, clone unchanged", 120, "q"),
+    "c11_pops_owned": ("pop_front(2), pop_back(1), failed try_pop_front on an owned 12-byte tendril with a live clone", 400, "q"),
+    "c11_pops_to_inline": ("pops that take an 11-byte shared tendril down to 6 bytes (heap -> inline)", 500, "q"),
+    "c11_send_inline": ("into_send / from round trip (inline)", 120, "q"),
+    "c11_send_owned": ("into_send / from round trip of an owned tendril with a live clone (make_owned before the transmute)", 300, "q"),
+    "c11_sub_inline": ("subtendril(3,4) of an owned tendril (inline copy), pushed to 10 bytes: parent unchanged", 600, "q"),
+    "c11_clone_push_owned": ("clone of an owned 10-byte tendril, push 3 bytes onto the original (copy-on-write + growth)", 1200, "t"),
+    "c11_sub_shared": ("subtendril(2,10) of a 14-byte tendril (shared with offset), pushed: parent unchanged", 1500, "t"),
+
+    "c11_utf8_cut_sym_4": ("UTF-8 tendril of 4 symbolic well-formed bytes, symbolic cut n: try_pop_front(n)/try_pop_back(4-n)/try_subtendril(0,n) succeed exactly on character boundaries and leave valid UTF-8", 600, "q"),
+    "c11_utf8_cut_sym_6": ("as c11_utf8_cut_sym_4 with 6 bytes", 2400, "t"),
+}
+
+
+def c11(out, tier):
+    hs = [H(n, cap, d, "bytes symbolic, lengths/offsets as named", crate="td") for n, (d, cap, t) in TD_H.items() if t == "q" or tier == "thorough"]
+    K.HARNESS_MOD = "ops"
+    K.run_all(out, "td", hs, TD_SRC)
+    out.assumptions += ["formats Bytes and UTF8 only (the two the parsers use); ASCII/Latin1/WTF8 outside",
+                        "histories are the listed one-to-three-operation recipes from each representation (inline <= 8 bytes, owned, shared, shared with offset, adjacent shared pair); contents symbolic, lengths concrete",
+                        "alloc::fmt::format stubbed; nothing is mem::forget-ed, so every harness also runs the real drop glue"]
+    return out.finish("model_checking", {
+        "evaluations": max(1, out.queries), "distinct_nontrivial": max(2, len([u for u in out.units if u["verdict"] == "SUCCESSFUL"])),
+        "rule": "one evaluation = one SAT query discharged by CBMC; distinct_nontrivial = harnesses (distinct operation recipes) with verdict SUCCESSFUL and satisfied reachability witness",
+        "functions_encoded": ["Tendril::{from_slice,clone,drop,push_slice,push_tendril,pop_front,pop_back,try_pop_front,subtendril,try_subtendril,clear,into_send,From<SendTendril>,pop_front_char,push_char,len32,deref}",
+                              "Buf32::{with_capacity,grow,destroy}", "fmt::{Bytes,UTF8} validation"]})
+
+
+def c12(out, tier):
+    orders = ["c12_drop_order_%d" % i for i in range(6)]
+    names = orders + ["c12_clear_clone_drop", "c12_reserve_clone_drop", "c11_clone_pop_owned", "c11_pops_owned", "c11_send_owned"] + (["c11_clone_push_owned", "c11_sub_shared"] if tier == "thorough" else [])
+    descs = dict({k_: v for k_, v in TD_H.items()})
+    descs["c12_clear_clone_drop"] = ("owned 12-byte tendril cleared (stays on the heap with length 0), cloned, original dropped, clone pushed and dropped", 900, "q")
+    descs["c12_reserve_clone_drop"] = ("with_capacity(16) tendril holding 3 bytes (heap, short), cloned, both dropped", 1200, "q")
+    for i, o in enumerate(orders):
+        descs[o] = ("three tendrils sharing one 12-byte buffer (owner, clone, offset slice) dropped in order #%d of the 6 possible, survivors read after each drop" % i, 900, "q")
+    hs = [H(n, descs[n][1], descs[n][0] + " - under CBMC's pointer checks (invalid/dangling dereference, out-of-bounds, invalid or double free)", "bytes symbolic, sequential, single thread", crate="td") for n in names]
+    K.HARNESS_MOD = "ops"
+    K.JOBS = min(K.JOBS, 5)                       # the two clone-after-clear/reserve harnesses need ~15-20 GB each
+    K.MEM_CAP_KB = max(K.MEM_CAP_KB, 26 * 1024 * 1024)
+    K.run_all(out, "td", hs, TD_SRC)
+    out.assumptions += ["sequential only: Kani does not model threads, so the Atomic instantiation's acquire/release pairing and cross-thread drops are NOT checked",
+                        "leak freedom ('no tendril memory remains') is not checked: CBMC's --memory-leak-check is not usable through Kani 0.68 here; double free, use after free and out-of-bounds are",
+                        "bounded histories = the listed recipes; contents symbolic"]
+    return out.finish("model_checking", {
+        "evaluations": max(1, out.queries), "distinct_nontrivial": max(2, len([u for u in out.units if u["verdict"] == "SUCCESSFUL"])),
+        "rule": "as C11; additionally cbmc_checks per unit counts the pointer/bounds/free checks CBMC discharged",
+        "functions_encoded": ["Tendril::drop, clone (make_buf_shared + incref), unsafe_subtendril, unsafe_pop_front/back, make_owned, Buf32::{with_capacity,grow,destroy}, into_send/from"]})
+
+
 # ---------------------------------------------------------------- engine M properties (HTML tokenizer)
 # concrete probe appended after the symbolic part: it drives the tokenizer through look-ahead (eat), comment, DOCTYPE, tag,
 # attribute and character-reference machinery, so that any stale internal state left behind by the symbolic part becomes observable
@@ -908,7 +964,7 @@ def tok_finish_c01(out, TC, tok, prog, results, exe, exe_rel, bounds):
     return npaths, obl
 
 
-PROPS = {"C01": c01, "C10": c10, "C14": c14, "C15": c15, "C19": c19, "C07": c07, "C13": c13, "C03": c03, "C04": c04, "C08": c08, "C09": c09}
+PROPS = {"C01": c01, "C10": c10, "C11": c11, "C12": c12, "C14": c14, "C15": c15, "C19": c19, "C07": c07, "C13": c13, "C03": c03, "C04": c04, "C08": c08, "C09": c09}
 
 
 def replay(path):
